@@ -159,7 +159,8 @@ impl DeltaReceiver {
         let num_parts;
         {
             let current: &mut CurrentDelta = self.current.as_mut().unwrap();
-            if snap.delta_tick != current.delta_tick
+            // `current.delta_tick` is absolute, the message's is relative.
+            if snap.tick.wrapping_sub(snap.delta_tick) != current.delta_tick
                 || snap.num_parts != current.num_parts
                 || snap.crc != current.crc
             {
